@@ -44,6 +44,8 @@ type exchange struct {
 	keepAlive10 bool // the origin's HTTP/1.0 response says Connection: keep-alive
 	sse      bool
 	seg      int
+	eol           string // line ending of the events of an event stream: LF, CRLF or CR (the blank line that ends an event is two of them)
+	uploadPending bool   // the request is a POST of which only half the body has been sent when the origin starts to answer
 	tail     int // octets that arrive in the same segment after the request: 0 none, 1 a stray CRLF, 2 the first octets of a further request that is never completed
 	rules    []string // configured --response-header rules
 }
@@ -158,6 +160,10 @@ func (e exchange) request(absolute bool) []byte {
 	if e.method == "POST" {
 		m.Framing = "cl"
 		m.Body = []byte("post-body")
+	}
+	if e.uploadPending {
+		w := m.Wire()
+		return w[:len(w)-4] // the last four octets of the body follow after the origin has answered
 	}
 	return m.Wire()
 }
@@ -451,6 +457,12 @@ func scenario(x *explore.X, incremental bool) {
 	var exs []exchange
 	if incremental {
 		exs = []exchange{chooseIncremental(x)}
+		if exs[0].uploadPending && (exs[0].version != "HTTP/1.1" || cfgk == 1 || exs[0].size != 40 || exs[0].seg != 1) {
+			// (an HTTP/1.0 client and the net/http.Server of the handler variant finish the exchange in ways that leave a
+			// goroutine waiting for the body's mutex, a state in which the virtual-clock harness cannot detect quiescence)
+			x.Outcome("inadmissible")
+			return
+		}
 	} else {
 		n := 1 + x.Choose("exchanges-1", 3)
 		for i := 0; i < n; i++ {
@@ -510,18 +522,29 @@ func scenario(x *explore.X, incremental bool) {
 		// (whatever follows the request in the same segment must not keep response k from the client)
 		cl.Send(append(e.request(cfgk != 2), []string{"", "\r\n", "GET http:/"}[e.tail]...))
 		methods = append(methods, e.method)
-		msgs, conns, problem := nh.Next()
-		if len(msgs) != 1 {
-			x.Failf("next-hop-count", "exchange %d: origin received %d requests (%s); client got %q", i+1, len(msgs), problem, world.Clip(cl.Recv()))
-			break
+		var oc world.Stream
+		if e.uploadPending {
+			nh.Poll()
+			if len(nh.Conns) == 0 || !bytes.Contains(nh.Conns[len(nh.Conns)-1].Recv(), []byte("\r\n\r\npost-")) {
+				x.Failf("next-hop-count", "exchange %d: the origin has not received the head and the first half of the body; client got %q", i+1, world.Clip(cl.Recv()))
+				break
+			}
+			oc = nh.Conns[len(nh.Conns)-1]
+		} else {
+			msgs, conns, problem := nh.Next()
+			if len(msgs) != 1 {
+				x.Failf("next-hop-count", "exchange %d: origin received %d requests (%s); client got %q", i+1, len(msgs), problem, world.Clip(cl.Recv()))
+				break
+			}
+			oc = nh.Conns[conns[0]]
 		}
-		oc := nh.Conns[conns[0]]
 		segs := segments(e)
 		if incremental {
 			sent, ok := incrementalDelivery(x, e, oc, cl, cfgk == 1)
 			if !ok {
 				break
 			}
+
 			e.override = sent
 		} else {
 			for _, sg := range segs {
@@ -599,6 +622,10 @@ func chooseIncremental(x *explore.X) exchange {
 	if x.ChooseFree("client-version", 2) == 1 {
 		e.version = "HTTP/1.0"
 	}
+	e.eol = []string{"\n", "\r\n", "\r"}[x.ChooseFree("event-line-ending", 3)]
+	if x.ChooseFree("origin-answers-while-the-request-body-is-still-being-sent", 2) == 1 {
+		e.method, e.uploadPending = "POST", true
+	}
 	return e
 }
 
@@ -615,7 +642,7 @@ func incrementalDelivery(x *explore.X, e exchange, oc, cl world.Stream, handlerM
 	for k := 0; k < e.seg; k++ {
 		ev := []byte(fmt.Sprintf("data: %d ", k))
 		ev = append(ev, h1x.Pattern(e.size, byte(k))...)
-		ev = append(ev, "\n\n"...)
+		ev = append(ev, e.eol+e.eol...)
 		sent = append(sent, ev...)
 		if e.framing == "chunked" {
 			oc.Send([]byte(fmt.Sprintf("%x\r\n%s\r\n", len(ev), ev)))
@@ -630,13 +657,16 @@ func incrementalDelivery(x *explore.X, e exchange, oc, cl world.Stream, handlerM
 			if handlerMode && !e.sse {
 				sig = "incremental-delivery/handler-mode-chunked-non-sse"
 			}
-			x.Failf(sig, "after event %d (%d body bytes sent by the origin, stream kind %s sse=%v, client %s) the client holds %d body bytes at quiescence",
-				k+1, len(sent), e.framing, e.sse, e.version, len(got))
+			x.Failf(sig, "after event %d (%d body bytes sent by the origin, stream kind %s sse=%v, events end with %q, client %s, request body still being uploaded: %v) the client holds %d body bytes at quiescence",
+				k+1, len(sent), e.framing, e.sse, e.eol+e.eol, e.version, e.uploadPending, len(got))
 			return nil, false
 		}
 	}
 	if d := time.Since(t0); d != 0 {
 		x.Failf("incremental-delivery/time", "virtual time advanced by %v while events were relayed", d)
+	}
+	if e.uploadPending {
+		cl.Send([]byte("body")) // the upload ends after the events were delivered and before the stream does
 	}
 	if e.framing == "chunked" {
 		oc.Send([]byte("0\r\n\r\n"))
@@ -782,7 +812,7 @@ func TestC02(t *testing.T) {
 	s.Assume = []string{"simnet models TCP", "httpwire is trusted", "compress/gzip is used to build and check gzip bodies"}
 	s.Add(explore.Scenario{Name: "exchanges", Remote: true, MaxDev: map[string]int{"quick": 3, "thorough": 4},
 		Run: func(x *explore.X) { world.Run(t, x, func() { scenario(x, false) }) }})
-	s.Add(explore.Scenario{Name: "incremental", Remote: true, MaxDev: map[string]int{"quick": 1, "thorough": 1},
+	s.Add(explore.Scenario{Name: "incremental", Remote: true, StallS: 20, MaxDev: map[string]int{"quick": 1, "thorough": 1},
 		Run: func(x *explore.X) { world.Run(t, x, func() { scenario(x, true) }) }})
 	s.Add(explore.Scenario{Name: "two-connections", Remote: true, Run: func(x *explore.X) { world.Run(t, x, func() { twoConnections(x) }) }})
 	s.Main()
